@@ -47,6 +47,34 @@ def check_C17(tier, seed):
             i = next((k for k in range(min(len(la), len(lb))) if la[k] != lb[k]), min(len(la), len(lb)))
             out.violation("c17:shipped-differs-from-regenerated", "codegen/src/grammar/generated.rs is not what the tree's generator produces from grammar.ebnf (first differing line %d: shipped %r / regenerated %r)" % (i, la[i:i + 1], lb[i:i + 1]),
                           {"shipped_near": la[max(0, i - 5):i + 5], "regenerated_near": lb[max(0, i - 5):i + 5]})
+        # ---- the route bootstrap.sh really takes: the command-line tool.  Its output must be the library's code, and the header
+        # must identify the grammar it was generated from (CRC-32 of grammar.ebnf), as the shipped file's header does
+        try:
+            import zlib
+            import re as _re
+            import c15
+            cli = c15.build_cli()
+            pr = subprocess.run([cli, gram], stdout=subprocess.PIPE, stderr=subprocess.PIPE, env=build.BASE_ENV, timeout=300)
+            evaluations += 1
+            if pr.returncode != 0:
+                out.violation("c17:cli-rejects-grammar.ebnf", "peginator-cli does not compile grammar.ebnf (exit %s): %s" % (pr.returncode, pr.stderr.decode("utf-8", "replace")[-300:]), {})
+            else:
+                cli_out = pr.stdout.decode("utf-8")
+                want_crc = "%08x" % (zlib.crc32(open(gram, "rb").read()) & 0xFFFFFFFF)
+                m = _re.search(r"^// CRC-32/ISO-HDLC of the grammar file: ([0-9a-f]{8})$", cli_out, _re.M)
+                ms = _re.search(r"^// CRC-32/ISO-HDLC of the grammar file: ([0-9a-f]{8})$", open(shipped, encoding="utf-8").read(), _re.M)
+                if not m or m.group(1) != want_crc:
+                    out.violation("c17:cli-header-crc", "the header written by peginator-cli for grammar.ebnf records CRC %s, the CRC-32 of grammar.ebnf is %s" % (m.group(1) if m else None, want_crc), {"header": cli_out[:300]})
+                if not ms or ms.group(1) != want_crc:
+                    out.violation("c17:shipped-header-crc", "the header of the shipped generated.rs records CRC %s, the CRC-32 of grammar.ebnf is %s (the shipped parser was not generated from this grammar.ebnf)" % (ms.group(1) if ms else None, want_crc), {})
+                clip = os.path.join(scratch, "cli_out.rs")
+                with open(clip, "w", encoding="utf-8") as f:
+                    f.write(cli_out)
+                c = fmt(clip, "cli_fmt.rs")
+                if c is not None and b is not None and c != b:
+                    out.violation("c17:cli-differs-from-library", "peginator-cli (the route bootstrap.sh takes) and the library produce different code for grammar.ebnf", {})
+        except subprocess.TimeoutExpired:
+            out.inconc("cli_watchdog_timeout")
         # ---- stage 2: a generator built around gen2
         for d in ("runtime", "codegen"):
             shutil.copytree(os.path.join(build.REPO, d), os.path.join(scratch, d), ignore=shutil.ignore_patterns("target"))
